@@ -168,3 +168,59 @@ for pid, d in DEPENDS.items():
 for k in PROPS.values():
     k.setdefault('trusted', [])
     k['trusted'] = COMMON_TRUST + k['trusted']
+
+
+def extra_checks(prop, tier, results):
+    """second lane (tools/kani_lane.py): Kani harnesses over the real crate for the property and the ones it builds on.
+    complete harnesses (loop-free, full-domain symbolic inputs) count as obligations discharged by CBMC;
+    bounded ones are reported under 'bounded' with their bound and are never counted as proved."""
+    import kani_lane
+    deps = [prop] + PROPS[prop].get('depends', [])
+    hs = []
+    seen = set()
+    for d in deps:
+        for h in kani_lane.harnesses_for(d):
+            if h['full'] not in seen and (tier == 'thorough' or h.get('tier', 'quick') == 'quick'):
+                seen.add(h['full'])
+                hs.append(h)
+    if not hs:
+        return []
+    res = kani_lane.run_harnesses(hs, tier)
+    out = []
+    byunit = {}
+    for r in res:
+        byunit.setdefault(r['unit'], []).append(r)
+    for unit, rs in sorted(byunit.items()):
+        e = {'name': 'kani:' + unit, 'backend': '%s / CBMC' % kani_lane.kani_version(), 'obligations': 0, 'discharged': 0,
+             'samples': [], 'violations': [], 'harnesses': [], 'trusted': [], 'artifact': 'kani/%s.rs' % unit}
+        und = []
+        for r in rs:
+            hid = 'kani::%s::%s' % (unit, r['harness'].split('::')[-1])
+            e['harnesses'].append({'id': hid, 'harness': r['harness'], 'kind': r['kind'], 'bound': r.get('bound') or None, 'claim': r.get('label'),
+                                   'status': r['status'], 'cbmc_time_s': r.get('time'), 'cached': r.get('cached'), 'cmd': r.get('cmd')})
+            if r['kind'] == 'complete':
+                e['obligations'] += 1
+                if r['status'] == 'pass':
+                    e['discharged'] += 1
+                    e['samples'].append(hid)
+            if r['status'] == 'fail':
+                rep = r.get('replay') or {}
+                wit = None
+                if r.get('concrete_vals') is not None and rep.get('reproduced'):
+                    wit = {'kani_concrete_values': r['concrete_vals'], 'replayed_on_real_code': True, 'replay_cmd': rep.get('cmd'), 'replay_output': rep.get('output')}
+                e['violations'].append({'id': hid, 'kind': 'kani-' + r['kind'], 'tags': r['props'],
+                                        'message': '%s: %s' % (r.get('label'), '; '.join(r.get('failed_checks') or [])),
+                                        'where': r['harness'], 'rendered': json_dumps_short(r), 'witness': wit,
+                                        'kani': {'harness': r['harness'], 'unit': unit, 'concrete_vals': r.get('concrete_vals')}})
+            elif r['status'] != 'pass':
+                und.append('%s: %s' % (hid, r.get('reason', 'no verdict')))
+        if und:
+            e['undecided'] = ' ; '.join(und)
+        e['trusted'].append('kani:%s: CBMC bit-precise model of the Rust code as compiled by Kani (MIR -> goto); std modelled by Kani; stub operands and sinks defined in kani/%s.rs; termination not checked' % (unit, unit))
+        out.append(e)
+    return out
+
+
+def json_dumps_short(r):
+    import json as _j
+    return _j.dumps({k: r.get(k) for k in ('harness', 'status', 'failed_checks', 'concrete_vals', 'replay', 'cmd', 'playback_cmd')}, indent=1)
